@@ -64,53 +64,61 @@ static bool core_run(const Case & c, std::vector<bxdecay0::event> & evs, std::st
 
 struct Res { bool ok = true; std::string cls, msg, nt; };
 
-static Res run_case(const Case & c)
+// One action object is driven through a SEQUENCE of requests (SetConfiguration, optionally DestroyConfiguration in between):
+// every step must behave as a fresh action would for that request.
+static Res run_steps(const std::vector<Case> & steps, const std::vector<int> & destroy_before)
 {
   Res r; auto fail = [&](const std::string & cls, const std::string & m) { if (r.ok) { r.ok = false; r.cls = cls; r.msg = m; } return r; };
-  std::vector<bxdecay0::event> core; std::string why; bool core_ok = core_run(c, core, why);
-  G4RunManager::GetRunManager()->abort_count = 0; G4StubExceptions::count() = 0;
-  std::vector<G4Event> evs(c.nev); bool threw = false; std::string what; std::vector<G4ThreeVector> vtx;
-  {
-    PGA action(c.cf, 0);
-    ScriptedVG svg; bxdecay0_g4::UniquePointVertexGenerator upvg(c.pos);
+  PGA action(0);
+  ScriptedVG svg; bxdecay0_g4::UniquePointVertexGenerator upvg;
+  std::string nt;
+  for (size_t si = 0; si < steps.size(); si++) {
+    const Case & c = steps[si];
+    std::string stepname = steps.size() > 1 ? "step " + std::to_string(si) + " of a reused action: " : "";
+    std::vector<bxdecay0::event> core; std::string why; bool core_ok = core_run(c, core, why);
+    G4RunManager::GetRunManager()->abort_count = 0; G4StubExceptions::count() = 0;
+    std::vector<G4Event> evs(c.nev); bool threw = false; std::string what; std::vector<G4ThreeVector> vtx;
+    if (destroy_before[si]) action.DestroyConfiguration();
+    action.SetConfiguration(c.cf);
+    svg.seq.clear(); svg.k = 0; svg.exhausted = false; upvg.SetSourcePosition(c.pos);
     if (c.vkind == 1) action.SetVertexGenerator(upvg);
-    if (c.vkind >= 2) { for (int k = 0; k < c.nev; k++) svg.seq.push_back(G4ThreeVector(c.pos.x() + k, c.pos.y() - 2 * k, c.pos.z() + 0.5 * k)); if (c.vkind == 3) svg.exhausted = true; action.SetVertexGenerator(svg); }
+    else if (c.vkind >= 2) { for (int k = 0; k < c.nev; k++) svg.seq.push_back(G4ThreeVector(c.pos.x() + k, c.pos.y() - 2 * k, c.pos.z() + 0.5 * k)); if (c.vkind == 3) svg.exhausted = true; action.SetVertexGenerator(svg); }
+    else { static struct Origin : public bxdecay0_g4::VertexGeneratorInterface { void ShootVertex(G4ThreeVector & v) override { v = G4ThreeVector(0, 0, 0); } } origin; if (si > 0) action.SetVertexGenerator(origin); }
     for (int k = 0; k < c.nev; k++) {
       vtx.push_back(c.vkind == 0 ? G4ThreeVector(0, 0, 0) : (c.vkind == 1 ? c.pos : svg.seq[k]));
       try { action.GeneratePrimaries(&evs[k]); } catch (std::exception & e) { threw = true; what = e.what(); break; }
     }
-  }
-  int aborts = G4RunManager::GetRunManager()->abort_count; size_t nprim = 0; for (auto & e : evs) nprim += e.primaries.size();
-  bool action_refused = threw || aborts > 0;
-  std::string verdict = std::string(core_ok ? "core-accepts" : "core-refuses") + "/" + (action_refused ? "action-refuses" : "action-accepts");
-  if (c.vkind == 3) {
-    if (core_ok && c.cf.seed >= 1 && aborts == 0 && !threw) return fail("exhausted-vertex-not-aborted", "vertex generator has no vertex left but the run is not aborted");
-    r.nt = "exhausted|" + c.nclass; return r;
-  }
-  if (!core_ok) {
-    if (!action_refused) return fail("accepts-what-core-refuses", "core tools refuse this request (" + why + ") but the action generated " + std::to_string(nprim) + " primaries without aborting the run: " + cfg_json(c));
-    if (nprim > 0) return fail("primaries-on-refusal", "request is refused (" + why + ") but " + std::to_string(nprim) + " primaries were created");
-    r.nt = "refused|" + c.nclass + "|" + std::string(c.cf.decay_category) + "|" + why.substr(0, 30); return r;
-  }
-  if (action_refused) {
-    if (c.cf.seed < 1) { r.nt = "seed-refused|" + c.nclass; return r; } // the extension documents seed >= 1
-    return fail("refuses-what-core-accepts", "core tools accept this request but the action refuses it (" + (threw ? what : std::string("AbortRun")) + "): " + cfg_json(c));
-  }
-  // hand-over: one primary per particle, in order, same species, MeV, seconds, common vertex
-  for (int k = 0; k < c.nev; k++) {
-    const auto & ps = core[k].get_particles(); const auto & pr = evs[k].primaries;
-    if (ps.size() != pr.size()) return fail("primary-count", "event " + std::to_string(k) + ": " + std::to_string(pr.size()) + " primaries for " + std::to_string(ps.size()) + " BxDecay0 particles: " + cfg_json(c));
-    for (size_t i = 0; i < ps.size(); i++) {
-      const char * want = ps[i].is_electron() ? "e-" : ps[i].is_positron() ? "e+" : ps[i].is_gamma() ? "gamma" : "alpha";
-      if (pr[i].def->name != want) return fail("species", "primary " + std::to_string(i) + " is a " + pr[i].def->name + ", BxDecay0 particle is " + want);
-      double p[3] = {ps[i].get_px(), ps[i].get_py(), ps[i].get_pz()}, q[3] = {pr[i].momentum.x() / CLHEP::MeV, pr[i].momentum.y() / CLHEP::MeV, pr[i].momentum.z() / CLHEP::MeV}; double n = ps[i].get_p();
-      for (int d = 0; d < 3; d++) if (std::fabs(p[d] - q[d]) > 1e-12 * n + 1e-300) return fail("momentum", "primary " + std::to_string(i) + " momentum component " + std::to_string(d) + " = " + jnum(q[d]) + " MeV, BxDecay0 particle has " + jnum(p[d]));
-      double t = pr[i].time / CLHEP::second;
-      if (std::fabs(t - ps[i].get_time()) > 1e-12 * std::fabs(ps[i].get_time()) + 1e-300) return fail("time", "primary " + std::to_string(i) + " time " + jnum(t) + " s, BxDecay0 particle has " + jnum(ps[i].get_time()) + " s");
-      if (pr[i].position.x() != vtx[k].x() || pr[i].position.y() != vtx[k].y() || pr[i].position.z() != vtx[k].z()) return fail("vertex", "primary " + std::to_string(i) + " of event " + std::to_string(k) + " is not at the vertex supplied by the vertex generator");
+    int aborts = G4RunManager::GetRunManager()->abort_count; size_t nprim = 0; for (auto & e : evs) nprim += e.primaries.size();
+    bool action_refused = threw || aborts > 0;
+    if (c.vkind == 3) {
+      if (core_ok && c.cf.seed >= 1 && aborts == 0 && !threw) return fail("exhausted-vertex-not-aborted", stepname + "vertex generator has no vertex left but the run is not aborted");
+      nt += "exhausted|" + c.nclass + ";"; continue;
     }
+    if (!core_ok) {
+      if (!action_refused) return fail("accepts-what-core-refuses", stepname + "core tools refuse this request (" + why + ") but the action generated " + std::to_string(nprim) + " primaries without aborting the run: " + cfg_json(c));
+      if (nprim > 0) return fail("primaries-on-refusal", stepname + "request is refused (" + why + ") but " + std::to_string(nprim) + " primaries were created");
+      nt += "refused|" + c.nclass + "|" + std::string(c.cf.decay_category) + ";"; continue;
+    }
+    if (action_refused) {
+      if (c.cf.seed < 1) { nt += "seed-refused|" + c.nclass + ";"; continue; } // the extension documents seed >= 1
+      return fail("refuses-what-core-accepts", stepname + "core tools accept this request but the action refuses it (" + (threw ? what : std::string("AbortRun")) + "): " + cfg_json(c));
+    }
+    for (int k = 0; k < c.nev; k++) {
+      const auto & ps = core[k].get_particles(); const auto & pr = evs[k].primaries;
+      if (ps.size() != pr.size()) return fail("primary-count", stepname + "event " + std::to_string(k) + ": " + std::to_string(pr.size()) + " primaries for " + std::to_string(ps.size()) + " BxDecay0 particles: " + cfg_json(c));
+      for (size_t i = 0; i < ps.size(); i++) {
+        const char * want = ps[i].is_electron() ? "e-" : ps[i].is_positron() ? "e+" : ps[i].is_gamma() ? "gamma" : "alpha";
+        if (pr[i].def->name != want) return fail("species", stepname + "primary " + std::to_string(i) + " is a " + pr[i].def->name + ", BxDecay0 particle is " + want);
+        double p[3] = {ps[i].get_px(), ps[i].get_py(), ps[i].get_pz()}, q[3] = {pr[i].momentum.x() / CLHEP::MeV, pr[i].momentum.y() / CLHEP::MeV, pr[i].momentum.z() / CLHEP::MeV}; double n = ps[i].get_p();
+        for (int d = 0; d < 3; d++) if (std::fabs(p[d] - q[d]) > 1e-12 * n + 1e-300) return fail("momentum", stepname + "primary " + std::to_string(i) + " momentum component " + std::to_string(d) + " = " + jnum(q[d]) + " MeV, the core generator's particle for the same request has " + jnum(p[d]));
+        double t = pr[i].time / CLHEP::second;
+        if (std::fabs(t - ps[i].get_time()) > 1e-12 * std::fabs(ps[i].get_time()) + 1e-300) return fail("time", stepname + "primary " + std::to_string(i) + " time " + jnum(t) + " s, BxDecay0 particle has " + jnum(ps[i].get_time()) + " s");
+        if (pr[i].position.x() != vtx[k].x() || pr[i].position.y() != vtx[k].y() || pr[i].position.z() != vtx[k].z()) return fail("vertex", stepname + "primary " + std::to_string(i) + " of event " + std::to_string(k) + " is not at the vertex supplied by the vertex generator");
+      }
+    }
+    nt += "handover|" + c.nclass + "|" + std::string(c.cf.decay_category) + "|v" + std::to_string(c.vkind) + "|" + (c.cf.use_mdl ? "mdl" : "-") + ";";
   }
-  r.nt = "handover|" + c.nclass + "|" + std::string(c.cf.decay_category) + "|v" + std::to_string(c.vkind) + "|" + (c.cf.use_mdl ? "mdl" : "-");
+  r.nt = (steps.size() > 1 ? "reuse" + std::to_string(steps.size()) + ":" : "") + nt;
   return r;
 }
 
@@ -144,6 +152,13 @@ static Case gen_case(uint64_t h)
   return c;
 }
 
+// 60% single request on a fresh action; 40% a sequence of 2-3 requests on one reused action (optionally DestroyConfiguration in between)
+static void build_steps(uint64_t cs, std::vector<Case> & steps, std::vector<int> & destroy)
+{
+  Rng r(mix(cs, 99)); int n = r.chance(0.6) ? 1 : r.range(2, 3);
+  for (int i = 0; i < n; i++) { steps.push_back(gen_case(mix(cs, i))); destroy.push_back(i > 0 && r.chance(0.3)); }
+}
+
 int main(int argc, char ** argv)
 {
   Args a(argc, argv);
@@ -153,21 +168,23 @@ int main(int argc, char ** argv)
   static std::ofstream devnull("/dev/null"); std::cerr.rdbuf(devnull.rdbuf()); std::clog.rdbuf(devnull.rdbuf());
   FILE * res = fdopen(out_fd, "w");
   uint64_t seed = a.i("seed", 1); int shard = a.i("shard", 0), nsh = a.i("nshards", 1); long long cases = a.i("cases", 20000);
-  if (a.has("replay")) { JV j = jload(a.s("replay")); Case c = gen_case(strtoull(j.s("case_seed").c_str(), nullptr, 10)); Res r = run_case(c); dprintf(out_fd, r.ok ? "REPLAY-PASS\n" : "REPLAY-FAIL class=%s %s\n", r.cls.c_str(), r.msg.c_str()); return r.ok ? 0 : 1; }
+  if (a.has("replay")) { JV j = jload(a.s("replay")); std::vector<Case> steps; std::vector<int> destroy; build_steps(strtoull(j.s("case_seed").c_str(), nullptr, 10), steps, destroy); Res r = run_steps(steps, destroy); dprintf(out_fd, r.ok ? "REPLAY-PASS\n" : "REPLAY-FAIL class=%s %s\n", r.cls.c_str(), r.msg.c_str()); return r.ok ? 0 : 1; }
   std::map<std::string, int> per;
   try {
     for (long long k = shard; k < cases; k += nsh) {
-      uint64_t cs = mix(mix(seed, 0xC17), k); Case c = gen_case(cs); Res r = run_case(c); rep.evaluations++; rep.label("class:" + c.nclass);
+      uint64_t cs = mix(mix(seed, 0xC17), k); std::vector<Case> steps; std::vector<int> destroy; build_steps(cs, steps, destroy);
+      const Case & c = steps.back(); Res r = run_steps(steps, destroy); rep.evaluations++; rep.label("class:" + c.nclass); rep.label("steps:" + std::to_string(steps.size()));
       if (!r.ok) {
-        std::string sig = "C17|" + r.cls + "|" + std::string(c.cf.decay_category) + "|" + c.nclass; std::string kid = known.match("C17", sig);
+        std::string sig = "C17|" + r.cls + "|" + std::string(c.cf.decay_category) + "|" + c.nclass + (steps.size() > 1 ? "|reused-action" : ""); std::string kid = known.match("C17", sig);
         if (!kid.empty()) { rep.known[kid]++; continue; }
         if (per[sig]++) { rep.count("further_failures_same_class"); continue; }
-        std::string path = replaydir + "/C17-" + hash_name(sig + cfg_json(c)) + ".json";
-        std::ofstream(path) << "{\"property\":\"C17\",\"case_seed\":\"" << cs << "\",\"config\":" << cfg_json(c) << ",\"sig\":" << jstr(sig) << ",\"msg\":" << jstr(r.msg) << "}\n";
+        std::string cfgs; for (auto & st : steps) cfgs += (cfgs.empty() ? "" : ",") + cfg_json(st);
+        std::string path = replaydir + "/C17-" + hash_name(sig + cfgs) + ".json";
+        std::ofstream(path) << "{\"property\":\"C17\",\"case_seed\":\"" << cs << "\",\"steps\":[" << cfgs << "],\"sig\":" << jstr(sig) << ",\"msg\":" << jstr(r.msg) << "}\n";
         rep.failures.push_back({sig, r.msg, path}); continue;
       }
       rep.nt(r.nt + "|" + std::string(c.cf.nuclide));
-      if (rep.samples.size() < 5 && k % 211 == 0) rep.sample("{\"config\":" + cfg_json(c) + ",\"outcome\":" + jstr(r.nt) + "}");
+      if (rep.samples.size() < 5 && k % 211 == 0) rep.sample("{\"last_config\":" + cfg_json(c) + ",\"steps\":" + std::to_string(steps.size()) + ",\"outcome\":" + jstr(r.nt) + "}");
     }
   } catch (std::exception & e) { fprintf(res, "HARNESS-ERROR %s\n", e.what()); fflush(res); return 2; }
   rep.write(a.s("out", "report.json"));
